@@ -26,8 +26,6 @@ func init() {
 	})
 }
 
-var dbgC15 func(p *pair, loaded, ro, rn map[string]bool)
-
 // c15Directed builds, without any randomness, the smallest shape behind the
 // recorded finding D20: bf 2, 34 top-layer keys (height 5) and one layer-0 key
 // that hangs below the top node on a chain of four entry-less pass-through
@@ -129,7 +127,10 @@ func runC15(c *fw.C) {
 	}
 	e := p.E
 	c.Desc("cfg{%s} %s old=%s new=%s", cfg, p.Desc, rootStr(p.Old.Root), rootStr(p.New.Root))
-	ro, err1 := setOf(e.Getter(), e.Format, p.Old.Root)
+	if p.OE == nil {
+		p.OE = e
+	}
+	ro, err1 := setOf(p.OE.Getter(), e.Format, p.Old.Root)
 	rn, err2 := setOf(e.Getter(), e.Format, p.New.Root)
 	if err1 != nil || err2 != nil {
 		return
@@ -148,7 +149,9 @@ func runC15(c *fw.C) {
 	// fresh handles opened from the roots
 	cold := *e
 	cold.Cache = nil
-	ot, err := cold.Load(p.Old.Root)
+	coldOld := *p.OE
+	coldOld.Cache = nil
+	ot, err := coldOld.Load(p.Old.Root)
 	if err != nil {
 		return
 	}
@@ -166,14 +169,18 @@ func runC15(c *fw.C) {
 	ctx := map[string]string{"relation": p.Relation}
 	measure := func(what string, run func() error) {
 		e.Store.Reset()
+		p.OE.Store.Reset()
 		if err := run(); err != nil {
 			c.Obs("diff_failed_"+what, 1)
 			return
 		}
-		loaded := len(e.Store.DistinctLoaded())
-		if dbgC15 != nil && what == "DiffIter" {
-			dbgC15(p, e.Store.DistinctLoaded(), ro, rn)
+		loadedSet := e.Store.DistinctLoaded()
+		if p.OE != e {
+			for nme := range p.OE.Store.DistinctLoaded() {
+				loadedSet[nme] = true
+			}
 		}
+		loaded := len(loadedSet)
 		c.Obs("diffs_measured", 1)
 		if D > 0 {
 			c.MaxObs("max_loads_per_1000_of_bound", int64(loaded*1000/(2*D+2)))
@@ -185,7 +192,7 @@ func runC15(c *fw.C) {
 			// classify the excess: how many of the loaded nodes are entry-less
 			// pass-through nodes common to both versions?
 			pt := 0
-			for nme := range e.Store.DistinctLoaded() {
+			for nme := range loadedSet {
 				if ro[nme] && rn[nme] {
 					if b, ok := e.Store.Get(nme); ok {
 						if nd, err := ref.Decode(e.Format, b); err == nil && len(nd.Keys) == 0 {
